@@ -164,12 +164,16 @@ for _n in (253, 254, 255):
     FEATURES.append(("feat-states-%d" % (_n + 2), ["-feof-support"], 'out int m = 0; hook h;\nparser { "%s"; m = 1; h(); }' % ("ab" * (_n // 2) + "c" * (_n % 2))))
 
 
+# fewer than 256 reachable states but more than 256 states in all at -O0 (unreachable ones keep their numbers: the state member must hold every index)
+FEATURES.append(("feat-states-O0-unreachable", ["-O0"], 'out int m = 0; hook h;\nparser { "%s"; m = 1; h(); optional { "x"; } try { "y"; } catch { "z"; } case { "p" -> {} else -> {} } }' % ("ab" * 123 + "c")))
+FEATURE_WITNESSES_EXTRA = {"feat-states-O0-unreachable": [("ab" * 123 + "c" + "x" + "y" + "p").encode(), ("ab" * 123 + "c" + "q" + "z").encode()]}
 # more than 256 states of which fewer than 256 are not condition points (the width of the state member counts all of them)
 _ifs = " ".join('if n == %d { "p"; } else { "q"; }' % i for i in range(50))
 FEATURES.append(("feat-many-condition-points", [], 'out int{unsigned, size 1} n = 0; hook h;\nparser { "%s"; %s h(); }' % ("ab" * 20, _ifs)))
 # explicit long inputs for programs whose interesting states lie deeper than the bounded strings reach (cut at every single position by C02)
 FEATURE_WITNESSES = {
     "feat-many-condition-points": [("ab" * 20 + "p" + "q" * 49).encode()],
+    "feat-states-O0-unreachable": [("ab" * 123 + "c" + "x" + "y" + "p").encode(), ("ab" * 123 + "c" + "q" + "z").encode()],
     "feat-states-255": [("ab" * 126 + "c").encode()], "feat-states-256": [("ab" * 127).encode()], "feat-states-257": [("ab" * 127 + "c").encode()],
 }
 
